@@ -4,6 +4,7 @@
 package query
 
 import (
+	"slices"
 	"strings"
 
 	"github.com/apmckinlay/gsuneido/compile/ast"
@@ -120,10 +121,30 @@ func (a *updateAction) execute(th *Thread, ut *db19.UpdateTran) int {
 			r.Put(th, SuStr(col), a.exprs[i].Eval(&ctx))
 		}
 		newrec := r.ToRecord(th, hdr)
+		newrec = keepRemoved(newrec, row[0].Record, hdr.Fields[0])
 		prev = ut.Update(th, table, row[0].Off, newrec)
 		n++
 	}
 	return n
+}
+
+// keepRemoved copies, into the new record, the stored values of the fields
+// that a project removed from the header ("-"): an update through a project
+// must not clear the columns it does not show.
+// (For a column deleted from the table the stored value is "" anyway.)
+func keepRemoved(newrec, oldrec Record, fields []string) Record {
+	if !slices.Contains(fields, "-") {
+		return newrec
+	}
+	var rb RecordBuilder
+	for i, f := range fields {
+		if f == "-" {
+			rb.AddRaw(oldrec.GetRaw(i))
+		} else {
+			rb.AddRaw(newrec.GetRaw(i))
+		}
+	}
+	return rb.Trim().Build()
 }
 
 //-------------------------------------------------------------------
